@@ -498,7 +498,32 @@ pub fn check_case(ctx: &Ctx, case: &Case, idx: u64, with_cli: bool, t: &mut Tall
     // JSON
     check_json(&ep, t, &wit);
     // determinism across runs
-    let rf = ref_eval_parsed(&comps, &fac, case.k, case.area, case.lm).unwrap_or_default();
+    let mut rf = ref_eval_parsed(&comps, &fac, case.k, case.area, case.lm).unwrap_or_default();
+    {
+        // the reference model only mirrors the library for non-negative inputs; this workload also has negated
+        // consumptions, where the library's own figures must say whether the total is rounding noise of the
+        // delivered / exported terms that cancel in it (any RER is noise then)
+        let (b, d, x) = (&ep.balance.we.b, &ep.balance.we.del, &ep.balance.we.exp);
+        let tot = (b.ren as f64 + b.nren as f64).abs();
+        let mag = d.ren.abs() as f64 + d.nren.abs() as f64 + x.ren.abs() as f64 + x.nren.abs() as f64;
+        if tot <= 1e-4 * mag {
+            for k in ["rer", "rer_nrb", "rer_onst"] {
+                rf.insert(k.to_string(), crate::refmodel::V { v: 0.0, s: f64::INFINITY });
+            }
+            t.count("cases_with_total_that_is_rounding_noise");
+        }
+        // likewise a carrier whose EPB use is a rounding residue of its by-service terms (a negated line that
+        // cancels the others): whether the carrier 'is used' - and with it the DHW indicator - is decided by the
+        // summation order
+        let residue = ep.balance_cr.values().any(|b| {
+            let terms: f64 = b.used.epus_by_srv_an.values().map(|x| x.abs() as f64).sum();
+            terms > 0.0 && (b.used.epus_an.abs() as f64) < 1e-5 * terms
+        });
+        if residue {
+            rf.insert(DHW_KEY.to_string(), crate::refmodel::V { v: 0.0, s: f64::INFINITY });
+            t.count("cases_with_carrier_use_that_is_rounding_noise");
+        }
+    }
     let slack = report_slack(&rf);
     if let Some((_, p0, x0, j0)) = render_all(&text, case, false) {
         for _ in 0..2 {
@@ -518,7 +543,7 @@ pub fn check_case(ctx: &Ctx, case: &Case, idx: u64, with_cli: bool, t: &mut Tall
             match (serde_json::from_str::<Value>(&j0), serde_json::from_str::<Value>(&j1)) {
                 (Ok(a), Ok(b)) => {
                     let dhw = dhw_noise_band(&case.spec).1;
-                    if let Some(d) = super::c10::json_diff(&a, &b, "", &|p| if p.contains("fraccion_renovable") { dhw } else { json_band(&rf, p) }) {
+                    if let Some(d) = super::c10::json_diff(&a, &b, "", &|p| if p.contains("fraccion_renovable") { dhw.max(json_band(&rf, p)) } else { json_band(&rf, p) }) {
                         t.violation("C17.output_varies_between_runs", format!("the JSON of two evaluations of the same file differs: {d}"), || wit(json!({})));
                         break;
                     }
